@@ -186,8 +186,12 @@ PROPS["C19"] = dict(
             dict(harness="VerifHarness_C19_p1", reach=["ok", "error", "excluded"]),
             dict(harness="VerifHarness_C19_p1g2", reach=["ok", "error", "excluded"]),
             dict(harness="VerifHarness_C19_p2", reach=["ok", "error", "excluded"]),
+            dict(pkg="ariga.io/atlas/sql/sqlite", hdir="sqlite", harness="VerifHarness_C02_sqlite_skip", reach=["changes", "no-change"]),
         ],
         "thorough": [
+            dict(pkg="ariga.io/atlas/sql/sqlite", hdir="sqlite", harness="VerifHarness_C02_sqlite_skip", reach=["changes", "no-change"]),
+            dict(pkg="ariga.io/atlas/sql/mysql", hdir="mysql", harness="VerifHarness_C02_mysql_skip", reach=["changes", "no-change"]),
+            dict(pkg="ariga.io/atlas/sql/postgres", hdir="postgres", harness="VerifHarness_C02_postgres_skip", reach=["changes", "no-change"]),
             dict(harness="VerifHarness_C19_p1", reach=["ok", "error", "excluded"]),
             dict(harness="VerifHarness_C19_p1g3", reach=["ok", "error", "excluded"]),
             dict(harness="VerifHarness_C19_p1sym", reach=["ok", "excluded"], cross=False),
@@ -195,7 +199,8 @@ PROPS["C19"] = dict(
         ],
     },
     bounds={
-        "quick": "realm of 2 schemas x 2 tables x (2 columns, 1 index, 1 foreign key, 1 named check); one pattern of 1..3 parts whose globs are "
+        "quick": "skip policy: 2^8 subsets of {drop column, drop index, drop fk, modify column, add index, drop pk, modify index, add column} x "
+                 "2^8 templates (SQLite; thorough: all three dialects); exclusion: realm of 2 schemas x 2 tables x (2 columns, 1 index, 1 foreign key, 1 named check); one pattern of 1..3 parts whose globs are "
                  "1 symbolic byte each over {a,b,c,*,?,[,],-,^,\\} with any of 13 [type=...] selectors; one pattern whose last glob has 2 symbolic "
                  "bytes; two patterns (last glob symbolic, earlier parts in {*,a}, 4 selectors)",
         "thorough": "same plus a 3-byte last glob, and symbolic one-letter resource names for schemas, tables and one table's columns",
@@ -205,12 +210,14 @@ PROPS["C19"] = dict(
         "indexes / foreign keys built on an excluded column are 'don't care' (removed only when the selector also admits their kind)",
         "selectors are attached to the last pattern part only",
     ],
-    outside="the skip-change-kinds half (DiffOptions.Skipped: see C02 notes), views/functions/procedures/triggers and realm objects, "
-            "patterns with more than the bounded glob length, schema apply --exclude end to end",
+    outside="views/functions/procedures/triggers and realm objects, patterns with more than the bounded glob length, "
+            "schema apply --exclude / diff.skip from the project file end to end (cmdapi)",
     claim="For every pattern (glob bytes are solver variables) within the bounds, the real ExcludeRealm either rejects the pattern with an "
           "error or returns a realm in which exactly the resources addressed by some pattern (path parts match, selector admits the kind, "
-          "children go with an excluded parent) are absent and all others are still present, compared with a declarative reference.",
-    note="Bounded. Trusted: the reference verifExcluded, engine, z3. Only the exclusion half of C19 is claimed by this check.",
+          "children go with an excluded parent) are absent and all others are still present, compared with a declarative reference. "
+          "Skip policy: for every subset of 8 skippable change kinds and every present/absent combination of column/index/pk/fk on both sides "
+          "(attributes differing so that both-present is a modify), TableDiff reports no change of a disabled kind and still every other edit.",
+    note="Bounded. Trusted: the references verifExcluded / verifExpected, engine, z3. The skip-policy runs are exhaustive structural enumeration.",
 )
 
 PROPS["C18"] = dict(
@@ -279,6 +286,38 @@ PROPS["C15"] = dict(
           "formatted type parses to a supported built-in type, and a second round is idempotent. MySQL ENUM/SET values containing quotes, commas "
           "or backslashes are the listed known finding.",
     note="Slice of C15 only (type format/parse fix-point). Bounded parameter ranges; structural choice of the type family by forking.",
+)
+
+def _c02_runs(extra):
+    runs = []
+    for d, cfg in (("sqlite", _lt), ("mysql", _my), ("postgres", _pg)):
+        for g in ("col", "idx", "rest", "pairs") + extra:
+            reach = ["changes", "no-change"]
+            runs.append(dict(cfg, harness=f"VerifHarness_C02_{d}_{g}", reach=reach))
+    return runs
+
+PROPS["C02"] = dict(
+    _lt,
+    runs={"quick": _c02_runs(()), "thorough": _c02_runs(("skip",))},
+    bounds={
+        "quick": "per dialect (SQLite, MySQL 8.0.31, PostgreSQL differs, normalized mode as the CLI uses): a table template with column a "
+                 "(present/absent per side; type family int/text/real; NULL-ability symbolic; default none or quoted one-letter literal with symbolic letter; "
+                 "MySQL/PostgreSQL: comment none or symbolic letter), index (present/absent; unique and descending symbolic), primary key, foreign key "
+                 "(present/absent; ON DELETE in {unset, NO ACTION, CASCADE}), named check (present/absent; symbolic one-letter expression), SQLite STRICT; "
+                 "groups: column / index+pk / fk+check+option with the rest fixed, plus every present/absent combination of all elements x declaration order",
+        "thorough": "same plus the 2^8 skip-policy subsets (see C19)",
+    },
+    assumptions=[
+        "element presence and type family are structural (explored by forking); NULL, UNIQUE, DESC, default / comment / check text are solver variables",
+        "sqlx.Has and the reflect calls of the differ run on the engine's reflect model (reflectsym.go)",
+        "defaults are given in the normalized (inspected) spelling: single-quoted literals for MySQL/PostgreSQL; SQLite also double-quoted",
+    ],
+    outside="realm / schema level objects, views, triggers, functions; renames (interactive askFor*), generated-index-name matching; charset / "
+            "collation / auto_increment / identity / index type attributes; DiffModeNotNormalized (needs a live dev connection for PostgreSQL)",
+    claim="For every template instance within the bounds the real TableDiff (sqlx.Diff + the dialect driver) returns exactly one change per "
+          "elementary edit with exactly the expected ChangeKind flags and nothing for unedited elements; diff with itself / a permuted copy is empty. "
+          "The expected set comes from an independent reference in the harness.",
+    note="Bounded template; reference verifExpected is trusted. The non-normalized check comparison (checksSimilarDiff) is legacy and not used by the CLI.",
 )
 
 NOT_APPLICABLE = {
